@@ -52,6 +52,7 @@ def run_mq(run, exe, trace_cfg="TraceMessageQ.cfg", trace_mod="TraceMessageQ", c
     n = nrandom or (4000 if run.thorough() else 600)
     gen = "".join("Gen %d %d %d %d %d %d\n" % (run.seed * 100 + i, n, d, s, m, irq)
                   for i, (d, s, m, irq) in enumerate([(3, 4, 3, 0), (3, 4, 3, 1), (8, 6, 2, 0), (32, 6, 8, 0), (2, 6, 2, 1)]))
+    gen += "Starve 16 12\nStarve 32 20\nStarve 13 9\n"      # a claim that loses the sendp race many times in a row must still succeed
     tr = exec_script(run, exe, [], gen, run.path(tagp + "random.ndjson"), "random-schedules")
     if validate:
         check_trace(run, "random-schedules", trace_mod, trace_cfg, tr)
